@@ -511,6 +511,8 @@ func (fr *Frame) preludeCall(st *State, name string, fn *ssa.Function, args []Va
 		return Val{T: Select(ex.get(st, "CallArg_"+sanitize(constString(cc.Args[0])), ArraySort(SInt, SRef)), args[1].T)}, true
 	case "__callResOf":
 		return Val{T: Select(ex.get(st, "CallRes_"+sanitize(constString(cc.Args[0])), ArraySort(SInt, SRef)), args[1].T)}, true
+	case "__callResStrOf":
+		return Val{T: Select(ex.get(st, "CallResStr_"+sanitize(constString(cc.Args[0])), ArraySort(SInt, SStr)), args[1].T)}, true
 	case "__callNOf":
 		return Val{T: ex.get(st, "CallN_"+sanitize(constString(cc.Args[0])), SInt)}, true
 	case "__callRetOf":
@@ -730,6 +732,10 @@ func (fr *Frame) applyContract(st *State, fn *ssa.Function, c *LoadedContract, a
 		if len(results) > 0 && results[0].T != nil && results[0].T.Sort == SRef {
 			// a reference-typed first result (the object the callee hands back)
 			ex.set(st, "CallRes"+sfx, Store(ex.get(st, "CallRes"+sfx, ArraySort(SInt, SRef)), n, results[0].T))
+		}
+		if len(results) > 0 && results[0].T != nil && results[0].T.Sort == SStr {
+			// a string first result (e.g. the line a reader hands back)
+			ex.set(st, "CallResStr"+sfx, Store(ex.get(st, "CallResStr"+sfx, ArraySort(SInt, SStr)), n, results[0].T))
 		}
 		// the first reference-typed argument after the receiver (a map, pointer or channel handed to the callee)
 		first := 0
@@ -1045,7 +1051,7 @@ func (fr *Frame) loopMod(li *loopInfo, st *State) map[string]bool {
 
 // logCounterOf names the counter component of an append-only ghost log component ("" if comp is not one).
 func logCounterOf(comp string) string {
-	for _, p := range []string{"CallFn", "CallRet", "CallArgB", "CallArg", "CallRes", "CallRecv", "CallStr"} {
+	for _, p := range []string{"CallFn", "CallRet", "CallArgB", "CallArg", "CallResStr", "CallRes", "CallRecv", "CallStr"} {
 		if comp == p {
 			return "CallN"
 		}
